@@ -52,3 +52,18 @@ func init() {
 		},
 	}
 }
+
+func init() {
+	table["C01"] = propSpec{
+		Level: "exploration",
+		Rule:  "distinct_nontrivial = distinct (configuration, payload class, copy paths, segmentation kinds) classes in which the real client and server exchanged data and both EOFs were observed",
+		Assumptions: append([]string{
+			"TCP segmentation is emulated by a harness transport that re-segments reads; when a side does not allow a segmented fixed-length header the first segment covers that header (a shorter first read is a legitimate ErrFirstRead)",
+			"identity-header depths above one are terminated by reference relay hops that implement only the SIP022 header-stripping step",
+		}, commonAssume...),
+		Parts: []partSpec{
+			{Name: "tunnel", Flavour: "plain", TimeoutQ: m10, TimeoutT: m60},
+			{Name: "tunnel-race", Flavour: "race", TimeoutQ: m10, TimeoutT: m60},
+		},
+	}
+}
